@@ -355,6 +355,7 @@ theorem toyCodecOk : CodecOk toyCodec toySpec where
     intro i hi
     have : i = toyInst := hi
     subst this
+    refine ⟨encInstElem toyCodec.toCodec toyInst, ?_, rfl⟩
     rw [toy_enc]
     show (if _ = _ then _ else _) = _
     rw [if_pos rfl]
